@@ -33,6 +33,8 @@ TRUSTED = ["hooks core/pkg/distribution/framer/{writer,iterator}/export_verif.go
            "iterator commands",
            "what each channel's storage iterator answers is an input of the model (observed on the nodes' engines)"]
 ASSUMES = ["channel metadata has reached every node before the script starts (the harness waits for it)",
+           "after a REJECTED frame the harness waits until the failed writer's leaseholders have released their storage "
+           "writers before going on (without the wait: known finding F90)",
            "writers are used one request at a time; transport failures and node death during a write are outside the property",
            "Sync=false writers (per-write acknowledgements are not requested)"]
 PARTIAL = None
@@ -337,13 +339,65 @@ OPS_KEY = "script"
 
 
 def fixup(case):
+    """repair a shrunk script: the generator never has two writers open at once (a second writer on
+    the same channels would simply be unauthorized, in the cluster and in the reference store alike);
+    when the shrinker cut a close, close every open writer before the next open"""
     if case.get("kind") != "cluster":
         return case
+    out, opened = [], []
+    for o in case["script"]:
+        if o["op"] == "open":
+            for w in opened:
+                out.append({"op": "close", "w": w})
+            opened = [o["w"]]
+        elif o["op"] == "close" and o["w"] in opened:
+            opened.remove(o["w"])
+        out.append(o)
+    case = dict(case)
+    case["script"] = out
     return case
 
 
+TAG_STALE = "writer_opened_while_failed_writers_peer_storage_writers_still_open"
+
+
 def tags(case, r):
-    return set()
+    """F90: only for histories run WITHOUT the harness' settle wait (or if the wait timed out): a frame was
+    rejected on a writer with a peer leaseholder L, a later writer was opened on channels of L, every engine holds
+    exactly the reference samples, and the only difference is the traversal of L's own engine (its domains start
+    at the failed writer's start)."""
+    if case.get("kind") != "cluster" or not r or r.get("hang") or r.get("panic") or not r.get("ops"):
+        return set()
+    keys = r["keys"]
+    failed_peers = set()
+    later = False
+    for o, out in zip(case["script"], r["ops"]):
+        if o["op"] == "write" and out["err"] == "invalid_key":
+            gw = next((x["gw"] for x in case["script"] if x["op"] == "open" and x["w"] == o["w"]), None)
+            chans = next((x["chans"] for x in case["script"] if x["op"] == "open" and x["w"] == o["w"]), [])
+            failed_peers |= {keys[n] >> 20 for n in chans if n in keys and (keys[n] >> 20) not in (gw, FREE)}
+        elif o["op"] == "open" and failed_peers and not out["err"]:
+            if any((keys[n] >> 20) in failed_peers for n in o["chans"] if n in keys):
+                later = True
+    if not (failed_peers and later):
+        return set()
+    for k, v in r["ref"].items():
+        if r["stores"].get(str(int(k) >> 20), {}).get(k, []) != v:
+            return set()
+    for io in r["iters"]:
+        if io["ref"]["err"]:
+            continue
+        own = {}
+        for n, t in io["direct"].items():
+            own[n] = t["cmds"]
+        for g, t in io["cluster"].items():
+            if t["err"]:
+                return set()
+        # the deviation must already be visible on an affected leaseholder's own engine
+        if any(t["cmds"] != io["ref"]["cmds"] for t in io["cluster"].values()):
+            if not any(str(n) in own for n in failed_peers):
+                return set()
+    return {TAG_STALE}
 
 
 def model_dump(case, r):
